@@ -359,7 +359,7 @@ func (x *session) serveCmds() {
 			cred = s.cfg.CredScan(raw)
 		}
 		x.emit("cmd", "verb", v, "m", m, "r", r, "params", params, "enc", x.enc, "cred", cred,
-			"mech", mech, "wf", wf, "line", clip(raw))
+			"mech", mech, "wf", wf, "line", clip(raw), "rverb", verb)
 		key := Key{v, m, r}
 		if v != "MAIL" && v != "RCPT" && v != "EHLO" && v != "HELO" {
 			key = Key{v, x.last, 0}
